@@ -9,7 +9,12 @@ pub(crate) fn t_drop_stub(_r: &mut T) {}
 
 /// Fault-injecting model of the caller's random generator.
 pub(crate) struct ModelRng {
+    /// set as soon as one request has reported failure (read by the harness after the call)
     pub fail: bool,
+    /// request number i (0-based, i < 8) fails iff bit i is set: every fault point, also "fails again on a retry"
+    pub fail_mask: u8,
+    /// the error value handed back: any non-zero code (OS errno range, rand_core's internal and custom ranges)
+    pub code: u32,
     pub partial: usize,
     pub bytes: [u8; 32],
     pub calls: u32,
@@ -17,8 +22,9 @@ pub(crate) struct ModelRng {
 }
 impl ModelRng {
     pub fn any() -> Self {
-        let r = ModelRng { fail: kani::any(), partial: kani::any(), bytes: kani::any(), calls: 0, last_len: 0 };
+        let r = ModelRng { fail: false, fail_mask: kani::any(), code: kani::any(), partial: kani::any(), bytes: kani::any(), calls: 0, last_len: 0 };
         kani::assume(r.partial <= 32);
+        kani::assume(r.code != 0);
         r
     }
 }
@@ -33,16 +39,19 @@ impl rand_core::RngCore for ModelRng {
     }
     fn fill_bytes(&mut self, _d: &mut [u8]) { kani::assert(false, "C12: infallible RNG interface used (fill_bytes)"); }
     fn try_fill_bytes(&mut self, d: &mut [u8]) -> Result<(), rand_core::Error> {
+        let idx = if self.calls < 7 { self.calls } else { 7 };
+        let fails = (self.fail_mask >> idx) & 1 == 1;
         self.calls += 1;
         self.last_len = d.len();
-        let n = if self.fail { self.partial } else { 32 };
+        let n = if fails { self.partial } else { 32 };
         let mut i = 0;
         while i < n && i < d.len() {
             d[i] = self.bytes[i];
             i += 1;
         }
-        if self.fail {
-            Err(rand_core::Error::from(core::num::NonZeroU32::new(rand_core::Error::CUSTOM_START).unwrap()))
+        if fails {
+            self.fail = true;
+            Err(rand_core::Error::from(core::num::NonZeroU32::new(self.code).unwrap()))
         } else {
             Ok(())
         }
